@@ -22,7 +22,7 @@ from ..wrules import model, w2
 from .c06 import REF_READ, REF_WIDTH, arms_table
 
 ANCHOR_RE = [r"model_file_operations::.*::(read|write)_(byte_float4|byte_float42|tangent|half4|half2|byte4|single3|single4|unsigned_short4)$"]  # typed codecs are paired by computed name (read_X <-> write_X)
-TECHNIQUE = "static analysis: read/write symmetry of the binrw declarations; size-formula terms read off the MIR vs wire sizes; sibling agreement of the reader's and writer's (usage, type) switch nests; derives-from obligations on the writer's seeks"
+TECHNIQUE = "static analysis: read/write symmetry of the binrw declarations; size-formula terms read off the MIR vs wire sizes; sibling agreement of the reader's and writer's (usage, type) switch nests; derives-from obligations on the writer's seeks; constant evaluation of the encoder scale factors; must-pass-through of update_headers"
 TRUSTED = ["pv/wire.py binrw model", "rustc nightly MIR", "encoder/decoder pairing table embedded in this rule"]
 
 TREE = ["model::ModelFileHeader", "model::ModelHeader", "model::MeshLod", "model::Mesh", "model::Submesh", "model::BoneTable", "model::ShapeStruct", "model::ShapeMesh", "model::ShapeValue",
